@@ -149,9 +149,15 @@ func genC19(t *rapid.T) *C19Case {
 		if rapid.Bool().Draw(t, "ownerswap") {
 			a.Labels, b.Labels = b.Labels, a.Labels
 		}
-		if rapid.IntRange(0, 2).Draw(t, "owner2") == 0 {
+		switch rapid.IntRange(0, 5).Draw(t, "owner2") {
+		case 0, 1:
 			// the controller reference is not the first ownerReference of the pods
 			a.Kind = "Owned2:ReplicaSet"
+		case 2:
+			// the controller is of a kind of its own (a CRD: Tekton TaskRun, Argo Rollout, ...): an owner all the same
+			a.Kind = "Owned:TaskRun"
+		case 3:
+			a.Kind = "Owned:StatefulSet"
 		}
 		b.Kind = a.Kind
 		if rapid.IntRange(0, 2).Draw(t, "ownerctl") == 0 {
